@@ -383,4 +383,56 @@ theorem scan_plain_decimal_terminating (sep th : Char) (hs : SepOK sep th) (ip :
   obtain ⟨e, he⟩ := hpre
   simp [parseNumber, he, hp]
 
+/-! ### `n#` prefixes: every base 2..36 -/
+
+theorem base_text : ∀ b : Fin 37, 2 ≤ b.val → (toString b.val).toList = (natDigits 10 b.val).map digitChar := by decide
+theorem base_go : ∀ b : Fin 37, 2 ≤ b.val → parseBasePrefix.go (natDigits 10 b.val) 0 = some b.val := by decide
+theorem base_head : ∀ b : Fin 37, 2 ≤ b.val → ((natDigits 10 b.val).map digitChar).head? ≠ some '0' := by decide
+
+theorem hash_facts : digitOf '#' 10 = none ∧ isSep '#' ',' = false ∧ isSep '#' '.' = false := by decide
+
+/-- the `n#` prefix is read back as the base `n` -/
+theorem parseBasePrefix_custom (b : Nat) (hb2 : 2 ≤ b) (hb : b ≤ 36) (th : Char) (hth : th = ',' ∨ th = '.') (r : List Char) :
+    parseBasePrefix th (prefixChars .custom b ++ r) = .ok (b, .custom, r) := by
+  have ht := base_text ⟨b, by omega⟩ hb2
+  have hg := base_go ⟨b, by omega⟩ hb2
+  have hh := base_head ⟨b, by omega⟩ hb2
+  simp only at ht hg hh
+  obtain ⟨d, t, hdt⟩ := natDigits_cons 10 b (by omega)
+  have hlt := natDigits_lt 10 b (by omega)
+  rw [hdt] at hlt hg hh ht
+  have hsep : isSep '#' th = false := by rcases hth with rfl | rfl; exact hash_facts.2.1; exact hash_facts.2.2
+  have hpi := parseInteger_scan false 10 (by omega) th hth d t hlt ('#' :: r) (Or.inr ⟨'#', r, rfl, hash_facts.1, hsep⟩)
+  have hne : digitChar d ≠ '0' := by
+    intro h0; apply hh; simp [h0]
+  simp only [prefixChars, ht, List.append_assoc, List.singleton_append]
+  simp only [List.map_cons, List.cons_append] at hpi ⊢
+  unfold parseBasePrefix
+  split
+  · rename_i rest heq; injection heq with h1 _; exact absurd h1 hne
+  · simp only [hpi, hg]
+    have : ¬ b < 2 := by omega
+    simp [this]
+
+theorem scan_custom_prefix (b : Nat) (hb2 : 2 ≤ b) (hb : b ≤ 36) (sep th : Char) (hs : SepOK sep th) (n : Nat) :
+    parseNumber sep th (fmtNat .custom b n none).1 = .ok (.num ⟨b, natDigits b n, none, none, none⟩ [], .custom) := by
+  have hth : th = ',' ∨ th = '.' := by rcases hs with ⟨_, h⟩ | ⟨_, h⟩; exact Or.inl h; exact Or.inr h
+  rw [fmtNat_text .custom b n hb2]
+  simp only [parseNumber, parseBasePrefix_custom b hb2 hb th hth, parseBasic_digits b hb2 hb sep th hs n]
+
+theorem scan_custom_prefix_terminating (b : Nat) (hb2 : 2 ≤ b) (hb : b ≤ 36) (sep th : Char) (hs : SepOK sep th) (ip : Nat)
+    (a : List Nat) (ha : ∀ d ∈ a, d < b) (hane : a ≠ []) :
+    parseNumber sep th (prefixChars .custom b ++ ((natDigits b ip).map digitChar ++ sep :: a.map digitChar)) =
+      .ok (.num ⟨b, natDigits b ip, some a, none, none⟩ [], .custom) := by
+  have hth : th = ',' ∨ th = '.' := by rcases hs with ⟨_, h⟩ | ⟨_, h⟩; exact Or.inl h; exact Or.inr h
+  simp only [parseNumber, parseBasePrefix_custom b hb2 hb th hth, parseBasic_terminating b hb2 hb sep th hs ip a ha hane]
+
+theorem scan_custom_prefix_recurring (b : Nat) (hb2 : 2 ≤ b) (hb : b ≤ 36) (sep th : Char) (hs : SepOK sep th) (ip : Nat)
+    (a c : List Nat) (ha : ∀ d ∈ a, d < b) (hc : ∀ d ∈ c, d < b) (hcne : c ≠ []) :
+    parseNumber sep th (prefixChars .custom b ++ recurText b sep ip a c) = .ok (.num ⟨b, natDigits b ip, some a, some c, none⟩ [], .custom) := by
+  have hth : th = ',' ∨ th = '.' := by rcases hs with ⟨_, h⟩ | ⟨_, h⟩; exact Or.inl h; exact Or.inr h
+  have hp := parseBasic_recurring b hb2 hb sep th hs ip a c ha hc hcne
+  unfold recurText
+  simp only [parseNumber, parseBasePrefix_custom b hb2 hb th hth, hp]
+
 end Fend.NumLit
